@@ -723,6 +723,34 @@ pub fn run(ctx: &Ctx, id: &str) -> i32 {
                     }
                 }
             }
+            // (i') the same, counted in replies of the operation's own exchange: the a-th re-sent exchange gets `step` replies
+            //      further than the one before and then stalls (the exchange has 40 intermediate packets to creep through)
+            for (k, op) in OPS.iter().enumerate() {
+                if k % threads != shard % threads {
+                    continue;
+                }
+                let cmd = match op {
+                    Op::New | Op::Configure => Cmd::Initialization,
+                    Op::ReadCard => Cmd::ReadCard,
+                    Op::Begin | Op::BeginOtherOpen => Cmd::Reservation,
+                    Op::Commit | Op::CommitOtherOpen => Cmd::PartialReversal,
+                    Op::Cancel | Op::CancelOtherOpen => Cmd::PreAuthReversal,
+                };
+                for step in [1usize, 2] {
+                    for offset in [1usize, 2] {
+                        for kind in [FaultKind::Silence, FaultKind::Close] {
+                            let (mut sc, idx) = skeleton(*op, &base_cfg);
+                            sc.plan.ex.remove(&(idx, cmd));
+                            for _ in 0..45 {
+                                sc.plan.push(idx, cmd, ExPlan { pre: (0..40).map(|i| Pre::Intermediate { status: i as u8, timeout: 0 }).collect(), ..ExPlan::default() });
+                            }
+                            sc.plan.faults.push(FaultSpec { call: idx, at: At::CreepingIn { cmd, offset, step }, kind });
+                            run_and_judge(r, id, &sc, idx, &schema, &format!("{op:?}: {kind:?} creeping forward by {step} repl(ies) per re-sent {cmd:?} exchange, starting at reply {offset}"), false);
+                            r.count("creeping_fault_runs", 1);
+                        }
+                    }
+                }
+            }
             // (h) the terminal says something unsolicited on the idle connection just before the operation (the beginning
             //     of a packet and then nothing more; a complete packet) - alone, and with a silence on the re-connection
             for (k, op) in OPS.iter().enumerate() {
